@@ -103,7 +103,8 @@ fn evaluate_expression<'data, P: Platform>(
             if divisor == 0 {
                 bail!("Division by zero in linker script expression");
             }
-            Ok(eval!(l)? / divisor)
+            // GNU ld evaluates expressions as signed 64-bit values, which matters for division.
+            Ok((eval!(l)? as i64).wrapping_div(divisor as i64) as u64)
         }
 
         // Comparisons return 1 (true) or 0 (false)
